@@ -327,6 +327,14 @@ func (w *World) foreign(t *testing.T, kind string) {
 		ents = []ent{e(pool[0], "registry.example/proj/img:"+tags[0], true)}
 		w.model.Tags[tags[0]] = pool[0].Top
 		w.foreignNote = "fullname"
+	case "fullname-port": // the same with a registry port (a second colon) and two names on one manifest
+		put(pool[0])
+		put(pool[1])
+		ents = []ent{e(pool[0], "localhost:5000/proj/img:"+tags[0], true), e(pool[0], "localhost:5000/proj/img:"+tags[1], true), e(pool[1], "registry.example/proj/img:"+tags[2], true)}
+		w.model.Tags[tags[0]] = pool[0].Top
+		w.model.Tags[tags[1]] = pool[0].Top
+		w.model.Tags[tags[2]] = pool[1].Top
+		w.foreignNote = "fullname"
 	case "nomediatype": // entry without media type
 		put(pool[0])
 		ents = []ent{e(pool[0], tags[0], false)}
@@ -708,7 +716,7 @@ func configs(thorough bool) []Cfg {
 		{Kind: "reg", Feat: "full", Limit: 1},
 		{Kind: "reg", Feat: "full", Limit: 2, TagPage: 1},
 		{Kind: "dir"},
-		{Kind: "foreign-dup"}, {Kind: "foreign-untagged"}, {Kind: "foreign-fullname"}, {Kind: "foreign-nomediatype"},
+		{Kind: "foreign-dup"}, {Kind: "foreign-untagged"}, {Kind: "foreign-fullname"}, {Kind: "foreign-fullname-port"}, {Kind: "foreign-nomediatype"},
 	}
 	for p := 0; p < 4; p++ {
 		cs = append(cs, Cfg{Kind: "reg", Feat: "full", Cache: true, Part: p, Parts: 4})
@@ -775,13 +783,15 @@ func bfs(t *testing.T, rec *ev.Rec, cfg Cfg, maxDepth int) {
 
 // vkey: clause + kind of store + last operation kind — not the whole history
 func vkey(k string, cfg Cfg, h []Op) string {
-	if cfg.Kind == "foreign-fullname" {
-		// one finding: entries named repo:tag are understood when reading but not when writing
-		return "foreign-fullname-entries-read-but-not-written"
-	}
 	last := "initial"
 	if len(h) > 0 {
 		last = h[len(h)-1].K
+	}
+	if strings.HasPrefix(cfg.Kind, "foreign-fullname") {
+		// one finding: entries named repo:tag are understood when reading but not when writing; the
+		// key names the clause and the operation, so that another failure in such a layout (a wrong
+		// listing of the layout as found, say) is not taken for the recorded one
+		return fmt.Sprintf("foreign-fullname-entries-read-but-not-written %s %s after=%s", k, cfg.Kind, last)
 	}
 	return fmt.Sprintf("%s %s feat=%s after=%s", k, cfg.Kind, cfg.Feat, last)
 }
@@ -987,7 +997,7 @@ func runConc(t *testing.T, c *explore.Ctx, sc concScen, scratch string, trace bo
 func TestVerifC06(t *testing.T) {
 	rec := ev.New()
 	defer rec.Flush(t)
-	rec.Rule("part 1: per configuration (registry with/without tag-delete API / without any delete, tag-list page sizes, client page limits, regclient-written layout, five foreign layouts; registry with the client's manifest cache on) breadth-first search over histories of {push m->tag (3x3), push by digest (3), tag delete (3), manifest delete by digest (3), by tag+digest reference (3), with referrer check} on the real client; states deduplicated by the canonical raw store and explored to closure (or the stated depth); after every operation tag list / head / get of every tag, every digest and every tag+digest reference of the pool are compared with a reference map. " +
+	rec.Rule("part 1: per configuration (registry with/without tag-delete API / without any delete, tag-list page sizes, client page limits, regclient-written layout, six foreign layouts; registry with the client's manifest cache on) breadth-first search over histories of {push m->tag (3x3), push by digest (3), tag delete (3), manifest delete by digest (3), by tag+digest reference (3), with referrer check} on the real client; states deduplicated by the canonical raw store and explored to closure (or the stated depth); after every operation tag list / head / get of every tag, every digest and every tag+digest reference of the pool are compared with a reference map. " +
 		"part 2: 2-3 goroutines x 1-2 operations on colliding tags through one client, every interleaving within the pre-emption bound at request arrivals (every mutex acquisition for layouts), judged by brute-force linearizability against the reference map. distinct_nontrivial = distinct (configuration, raw state, operation) transitions and distinct concurrent outcomes")
 	rec.Assume("deduplication by raw store state is sound where the client keeps no state of its own; the configurations with the manifest cache on are explored without any merging (every history of length <= 3, thorough 4, observing after every step)")
 	if rd := rec.ReplayData(); rd != nil {
